@@ -144,6 +144,30 @@ def run(ctx):
     ctx.ob('R05.4', 'set_mn_task|asserts is_free', bool(asserted) or bool(smn.call_blocks(lambda c: c.endswith('is_free'))) or _has_assert(smn),
            'set_mn_task refuses a worker that is not free (assertion)', smn.loc())
 
+    # ---- R05.6 primitive reservation operations: set membership and free-resource summary move together
+    ctx.rule('R05.6', 'Worker reservation primitives update the assigned set and the free-resource summary together (insert: remove from free; remove: add back; prefilled->started: both)')
+    WA = T + 'server::worker::WorkerAssignment'
+    SET_INS = {'hashbrown::set::HashSet::insert', 'std::collections::hash::set::HashSet::insert'}
+    SET_REM = {'hashbrown::set::HashSet::remove', 'std::collections::hash::set::HashSet::remove'}
+    def prim(fn, set_calls, field, free_suffix):
+        b = prog.body(WORKER + fn)
+        sc = [bi for bi in b.call_blocks(set_calls) if field in local_field_sources(b, op_local(b.term[bi]['args'][0]), through_mutation=False)]
+        fc = [bi for bi in b.call_blocks(lambda c: c.endswith(free_suffix)) if 'free_resources' in local_field_sources(b, op_local(b.term[bi]['args'][0]), through_mutation=False)]
+        entries, region = b.arm_entries(WA, {'Sn'})
+        ok1, _ = must_pass(b, entries, sc) if sc and entries else (False, None)
+        ok2, _ = must_pass(b, entries, fc) if fc and entries else (False, None)
+        ctx.ob('R05.6', f'{fn}|{field} updated', ok1, f'{fn} updates {field} on every path of the single-node arm', b.loc(sc[0]) if sc else b.loc())
+        ctx.ob('R05.6', f'{fn}|free resources {free_suffix.split("::")[-1]}', ok2, f'{fn} applies WorkerResources free summary ::{free_suffix.split("::")[-1]} on every path of the single-node arm', b.loc(fc[0]) if fc else b.loc())
+    prim('insert_sn_task', SET_INS, 'assigned_tasks', 'WorkerLoad::remove' if False else '::remove')
+    prim('remove_sn_task', SET_REM, 'assigned_tasks', '::add')
+    prim('task_from_prefilled_to_started', SET_INS, 'assigned_tasks', '::remove')
+    b_ = prog.body(WORKER + 'task_from_prefilled_to_started')
+    pr = [bi for bi in b_.call_blocks(SET_REM) if 'prefilled_tasks' in local_field_sources(b_, op_local(b_.term[bi]['args'][0]), through_mutation=False)]
+    ctx.ob('R05.6', 'task_from_prefilled_to_started|leaves the backlog set', bool(pr), 'a started backlog task leaves prefilled_tasks', b_.loc(pr[0]) if pr else b_.loc())
+    rmn = prog.body(WORKER + 'reset_mn_task')
+    wr = [1 for bi, st, pl, fs in rmn.field_writes() if fs and fs[-1][0] == 'assignment']
+    ctx.ob('R05.6', 'reset_mn_task|back to an empty sn assignment', bool(wr) and bool(rmn.call_blocks(WA + '::empty_sn')), 'a freed multi-node worker gets a fresh empty single-node assignment', rmn.loc())
+
     # ---- R05.5 reactor rows + mapping rows
     n = reactor_table.run_rows(ctx, 'R05.5', 'C05')
     ctx.floor('R05.5', n, 20, 'reactor rows for C05')
